@@ -390,6 +390,9 @@ def recorder_method(I, rec, name):
         def f(I, a, k):
             items = I.try_iter_concrete(a[1])
             if items is None:
+                if getattr(a[0], "tolerate_abstract", False):
+                    a[0].outs.append(a[1])  # R-HAVOC ignores what is appended
+                    return None
                 raise Unsupported("extend of an accumulator with an abstract list inside an abstracted loop")
             a[0].outs.extend(items)
         return mk(f)
